@@ -144,6 +144,16 @@ def destroy (s : State) : State × List Ev :=
   | some t => ({ s with table := none }, [.ufree t (nodeStructBytes * amountOfNodes)])
   | none => (s, [])
 
+/-- `~GlobalSimpleStringCache()`: the string allocator is switched back, the cache is cleared with the
+    function the destructor calls (regenerated: `Gen.Cache.globalDtorClearsAll`), then the member
+    cache is destroyed (its node table returned).  `GlobalSimpleStringCache`'s constructor is `create`
+    followed by `setAllocator`; `SimpleStringCacheAllocator::alloc_memory/free_memory` are `alloc` /
+    `dealloc` (shape-checked by the extractor). -/
+def globalDestroy (s : State) : State × List Ev :=
+  let r1 := if Gen.Cache.globalDtorClearsAll then clearAll s else clearCache s
+  let r2 := destroy r1.1
+  (r2.1, r1.2 ++ r2.2)
+
 inductive Op
   | alloc (size nodeId memId : Nat)
   | dealloc (mem size : Nat)
